@@ -170,10 +170,10 @@ def finding_matches(f, prop, clause, site):
 # Context of one check run
 # ----------------------------------------------------------------------------------------------
 class Ctx:
-  def __init__(self, prop, tier, seed, replay=None):
+  def __init__(self, prop, tier, seed, replay=None, work=None):
     self.prop, self.tier, self.seed, self.replay = prop, tier, seed, replay
     self.t0 = time.time()
-    self.work = os.path.join(WORK, prop)
+    self.work = work or os.path.join(WORK, prop)
     shutil.rmtree(self.work, ignore_errors=True)
     os.makedirs(self.work, exist_ok=True)
     self.states = 0
